@@ -117,6 +117,8 @@ fn export_req<K: Kmer + Send + Sync>(a: &[&str]) -> String {
     let dir = std::env::temp_dir();
     let stem = format!("dbg-harness-{}-{}", std::process::id(), COUNTER.fetch_add(1, std::sync::atomic::Ordering::SeqCst));
     let (p1, p2, p3) = (dir.join(format!("{}.gfa", stem)), dir.join(format!("{}.tags.gfa", stem)), dir.join(format!("{}.dot", stem)));
+    // the output paths exist already and hold more bytes than the export will write (a pipeline re-run to the same names)
+    for p in [&p1, &p2, &p3] { std::fs::write(p, vec![b'#'; 40000]).unwrap(); }
     g.to_gfa(&p1).unwrap();
     g.to_gfa_with_tags(&p2, |n: &debruijn::graph::Node<K, u32>| format!("LN:i:{}\tDA:i:{}", n.len(), n.data())).unwrap();
     let f1 = std::fs::read(&p1).unwrap();
